@@ -97,18 +97,29 @@ theorem gen_nmToFringe (n m : Int) (h : Valid n m) : Generated.C11.nmToFringe n 
       unfold Generated.C11.nmToFringe
       simp only [Generated.C11.sign, hm, f1, f2, f3, f4, f5, ge_iff_le, gt_iff_lt, if_true, if_false, ne_eq,
         not_true_eq_false, not_false_eq_true]
+      -- `int(X)` wherever it stands in the integer expression: X is the cast of the value that makes the goal true
+      generalize hv : Py.int _ = v
       first
-      | (apply Py.int_shift; push_cast; ring1)
-      | (apply Py.int_shift0; push_cast; ring1)
+      | (have hz : v = (k + 1) * (k + 1) + 2 * m + 1 - 1 := by
+           rw [← hv]; apply Py.int_shift0; push_cast; ring1
+         rw [hz]; first | done | ring1)
+      | (have hz : v = (k + 1) * (k + 1) + 2 * m + 1 := by
+           rw [← hv]; apply Py.int_shift0; push_cast; ring1
+         rw [hz]; first | done | ring1)
     · -- cosine terms and m = 0
       rw [nmToFringe_nonneg k m hm]
       have f1 : ¬ (m < 0) := by omega
       have f3 : ¬ (m ≤ -1) := by omega
       unfold Generated.C11.nmToFringe
       simp only [Generated.C11.sign, hm, f1, f3, ge_iff_le, if_true, if_false]
+      generalize hv : Py.int _ = v
       first
-      | (apply Py.int_shift; push_cast; ring1)
-      | (apply Py.int_shift0; push_cast; ring1)
+      | (have hz : v = (k + 1) * (k + 1) - 2 * m - 1 := by
+           rw [← hv]; apply Py.int_shift0; push_cast; ring1
+         rw [hz]; first | done | ring1)
+      | (have hz : v = (k + 1) * (k + 1) - 2 * m := by
+           rw [← hv]; apply Py.int_shift0; push_cast; ring1
+         rw [hz]; first | done | ring1)
 
 
 /-- `noll_to_nm`: the list it builds is long enough (no IndexError, negative index in range) and the result is the closed form, every `j ≥ 1` -/
